@@ -32,7 +32,7 @@ try:
         res["build"] = "ok" if b.returncode == 0 else b.stdout.decode()[-800:]
         def one(p):
             t0 = time.time()
-            q = subprocess.run(["./check", p, "--dev", "--tier", "quick"], cwd=ROOT, env=dict(ENV, VERIF_REPO=wt, VERIF_SCRATCH_TAG="_bn"),
+            q = subprocess.run(["./check", p, "--dev", "--tier", "quick"], cwd=ROOT, env=dict(ENV, VERIF_REPO=wt, VERIF_SCRATCH_TAG="_bn%d" % os.getpid()),
                                stdout=subprocess.PIPE, stderr=subprocess.STDOUT)
             out = q.stdout.decode("utf-8", "replace")
             return p, {"rc": q.returncode, "s": round(time.time() - t0, 1),
@@ -45,5 +45,5 @@ finally:
     subprocess.call(["git", "-C", "/repo", "worktree", "remove", "--force", wt])
     shutil.rmtree(wt, ignore_errors=True)
     for p in props:
-        shutil.rmtree("/verif/work/%s_scratch_bn" % p, ignore_errors=True)
+        shutil.rmtree("/verif/work/%s_scratch_bn%d/harness_copy" % (p, os.getpid()), ignore_errors=True)
 print(json.dumps(res, indent=1))
